@@ -188,6 +188,14 @@ func SafeVal[T any](f func() (T, error)) (v T, o Obs) {
 // Build constructs the root schema with its rules and types. A failing AddRule/AddType is
 // returned as an observation (the schema is still returned when it exists).
 func Build(sp Spec) (s *njs.Schema, o Obs) {
+	s, _, o = BuildWithBuffer(sp, false)
+	return s, o
+}
+
+// BuildWithBuffer is Build; with fromBytes the root schema is created from a []byte that is
+// handed back: the caller may overwrite it afterwards (the library must have taken what it
+// needs, or keep working on its own copy).
+func BuildWithBuffer(sp Spec, fromBytes bool) (s *njs.Schema, buf []byte, o Obs) {
 	defer func() {
 		if r := recover(); r != nil {
 			o = Obs{Panic: fmt.Sprintf("%v\n%s", r, debug.Stack()), Code: -1, Pos: -1}
@@ -197,10 +205,15 @@ func Build(sp Spec) (s *njs.Schema, o Obs) {
 	if sp.OptKeys {
 		opts = append(opts, njs.KeysAreOptionalByDefault())
 	}
-	s = njs.New("root", sp.Text, opts...)
+	if fromBytes {
+		buf = []byte(sp.Text)
+		s = njs.New("root", buf, opts...)
+	} else {
+		s = njs.New("root", sp.Text, opts...)
+	}
 	for _, r := range sp.Rules {
 		if err := s.AddRule(r.Name, enum.New(r.Name, r.Text)); err != nil {
-			return s, Observe(err)
+			return s, buf, Observe(err)
 		}
 	}
 	built := make([]jschema.Schema, len(sp.Types))
@@ -224,7 +237,7 @@ func Build(sp Spec) (s *njs.Schema, o Obs) {
 			}
 			for _, r := range rules {
 				if err := tj.AddRule(r.Name, enum.New(r.Name, r.Text)); err != nil {
-					return s, Observe(err)
+					return s, buf, Observe(err)
 				}
 			}
 			ts = tj
@@ -244,7 +257,7 @@ func Build(sp Spec) (s *njs.Schema, o Obs) {
 					continue
 				}
 				if err := built[i].AddType(u.Name, built[j]); err != nil {
-					return s, Observe(err)
+					return s, buf, Observe(err)
 				}
 			}
 		}
@@ -266,10 +279,10 @@ func Build(sp Spec) (s *njs.Schema, o Obs) {
 			continue
 		}
 		if err := s.AddType(t.Name, built[i]); err != nil {
-			return s, Observe(err)
+			return s, buf, Observe(err)
 		}
 	}
-	return s, Obs{OK: true, Code: -1, Pos: -1}
+	return s, buf, Obs{OK: true, Code: -1, Pos: -1}
 }
 
 // Check builds a fresh schema and runs Check.
